@@ -31,6 +31,25 @@ func updatePackageInfoFromArgs(packageInfo *packaging.PackageInfo, configArgs ma
 	}
 
 	// the manifest was validated before the overrides were applied
+	outputDirs := map[string]string{}
+	if packageInfo.Cpp != nil {
+		outputDirs["cpp.sourcesOutputDir"] = packageInfo.Cpp.SourcesOutputDir
+	}
+	if packageInfo.Python != nil {
+		outputDirs["python.outputDir"] = packageInfo.Python.OutputDir
+	}
+	if packageInfo.Matlab != nil {
+		outputDirs["matlab.outputDir"] = packageInfo.Matlab.OutputDir
+	}
+	if packageInfo.Json != nil {
+		outputDirs["json.outputDir"] = packageInfo.Json.OutputDir
+	}
+	for _, key := range []string{"cpp.sourcesOutputDir", "python.outputDir", "matlab.outputDir", "json.outputDir"} {
+		if dir, present := outputDirs[key]; present && dir == "" {
+			return fmt.Errorf("invalid value for config key %s: the output directory must not be empty", key)
+		}
+	}
+
 	if !packaging.IsValidNamespaceName(packageInfo.Namespace) {
 		return fmt.Errorf("invalid value '%s' for config key namespace: a namespace must be PascalCased and consist of letters and digits", packageInfo.Namespace)
 	}
